@@ -139,10 +139,10 @@ PROPS = {
                 'Nothing/ImageData, the same image bytes with every ImageDataFlushed, the same end (complete decoder state incl. metadata at IEND / end of input; the same error and metadata on failure). Only premise: the '
                 'prefix-determinacy contract of the external inflater (output / error / end of stream determined by a prefix stay determined; shown satisfiable). Proof: inflater wrapper cut-invariant in every state -> one transition on '
                 'p++q = transition on p, or transitions on p and q merged (field, body or image data straddling the cut) -> runs of transitions -> lists of pieces -> the fuelled loops of update/feed, which never run dry '
-                '(5*|buffer|+rank decreases with every transition). PARTIAL with respect to the other half of the property: the Reader over a BufRead (rows, frames, error order) is not in the theorem; it is decided on every run by the '
+                '(5*|buffer|+rank decreases with every transition). ROWS: a row-level Reader run (portions appended to the unfiltering buffer with compaction, previous-row resets, row requests) delivers, for the same requests over the same total data, the same rows and outcome - or a prefix when a run stopped for lack of data (the exception the property itself states) - and composed with the machine: the rows of the first frame are the same for any two cuts of the input, any portions and any interleaving (C04_rows_are_delivery_independent, C04_executable_model_frame_rows_are_delivery_independent). PARTIAL with respect to the rest of the Reader: its pull loop (which requests it issues, later frames, error order between rows and later chunks) is not in a theorem; it is decided on every run by the '
                 'metamorphic check on the implementation (whole vs byte-by-byte vs every single cut point vs random schedules, at StreamingDecoder and Reader level) and has one known finding.',
   'level_note': 'Trusted: Coq kernel; hand model of stream.rs tied by differential execution of event traces (l0 cases); fdeflate streaming behaviour by the stated contract (zinf_contract), which is a hypothesis of the theorem, not an axiom; '
-                'the Reader level is measured, not proved.',
+                'the Reader pull loop is measured, not proved (its buffer operations are modelled in Model/UnfiltBuf.v, tied by the cursor hook after every row call).',
   'gen_items': ['CHUNK_BUFFER_SIZE', 'signature', 'chunk.consts'],
   'model_name': 'Model/Stream.v next_state (field accumulation, body buffering) / StreamRun.v feed',
   'rule': 'cases = generated valid files with ancillary chunks, structural and byte mutations, corpus files; each under whole / 1..13-byte pieces / every single cut point (files <= 700 B; 4096 B thorough) / '
